@@ -283,6 +283,16 @@ class RangeIt(It):
         return None
 
 
+class RepoIt(It):
+    """an iterator type defined in the repository: `next` is its own (interpreted) code"""
+    def __init__(self, ty, ref):
+        self.ty = ty; self.ref = ref
+
+    def next(self, ex):
+        r = ex.call("<%s as Iterator>::next" % self.ty, [self.ref])
+        return r.fields[0] if r.idx == 1 else None
+
+
 class OnceIt(It):
     def __init__(self, x):
         self.x = x
@@ -318,7 +328,7 @@ def install(models, front=True):
     @R(r"^Option::<.*>::([a-z_]+)(::<.*>)?$")
     def _option(ex, c, a):
         m = re.match(r"^Option::<.*>::([a-z_]+)(::<.*>)?$", c).group(1)
-        o = deref(a[0]) if m in ("is_some", "is_none", "as_ref", "as_mut", "as_deref", "take", "is_some_and", "iter", "insert", "get_or_insert_with", "replace") else a[0]
+        o = deref(a[0])
         some = o.idx == 1
         if m == "is_some": return some
         if m == "is_none": return not some
@@ -357,8 +367,7 @@ def install(models, front=True):
             r.set(opt(a[1]))
             return old
         if m == "is_some_and":
-            o2 = a[0]
-            return ex.call_closure(a[1], [o2.fields[0]]) if o2.idx == 1 else False
+            return ex.call_closure(a[1], [o.fields[0]]) if some else False
         if m == "iter": return OnceIt(Ref(o.fields, 0) if some else None)
         if m == "into_iter": return OnceIt(o.fields[0] if some else None)
         if m == "zip":
@@ -371,7 +380,7 @@ def install(models, front=True):
 
     @R(r"^<Option<.*> as Try>::branch$")
     def _opt_branch(ex, c, a):
-        o = a[0]
+        o = deref(a[0])
         if o.idx == 1:
             return EnumV("ControlFlow", 0, [o.fields[0]])
         return EnumV("ControlFlow", 1, [NONE()])
@@ -384,7 +393,7 @@ def install(models, front=True):
     @R(r"^Result::<.*>::([a-z_]+)(::<.*>)?$")
     def _result(ex, c, a):
         m = re.match(r"^Result::<.*>::([a-z_]+)(::<.*>)?$", c).group(1)
-        r = deref(a[0]) if m in ("is_ok", "is_err", "as_ref", "as_mut", "is_ok_and", "is_err_and") else a[0]
+        r = deref(a[0])
         ok = r.idx == 0
         if m == "is_ok": return ok
         if m == "is_err": return not ok
@@ -407,12 +416,12 @@ def install(models, front=True):
             return EnumV("Result", r.idx, [Ref(r.fields, 0)])
         if m in ("cloned", "copied"):
             return EnumV("Result", 0, [shallow_copy(deref(r.fields[0]))]) if ok else r
-        if m == "is_ok_and": return ex.call_closure(a[1], [a[0].fields[0]]) if a[0].idx == 0 else False
+        if m == "is_ok_and": return ex.call_closure(a[1], [r.fields[0]]) if ok else False
         raise Unsupported("Result::" + m)
 
     @R(r"^<Result<.*> as Try>::branch$")
     def _res_branch(ex, c, a):
-        r = a[0]
+        r = deref(a[0])
         if r.idx == 0:
             return EnumV("ControlFlow", 0, [r.fields[0]])
         return EnumV("ControlFlow", 1, [EnumV("Result", 1, [r.fields[0]])])
@@ -550,6 +559,9 @@ def install(models, front=True):
     def _iter(ex, c, a):
         mm = re.match(r"^<(.*) as (?:DoubleEnded)?Iterator>::([a-z_]+)(::<.*>)?$", c)
         m = mm.group(2)
+        rf = ex.prog.resolve("<%s as Iterator>::next" % mm.group(1)) if mm.group(1) and not mm.group(1).startswith(("std::", "core::", "rowan")) else None
+        if rf is not None and m != "next":
+            a = [RepoIt(mm.group(1), a[0] if isinstance(a[0], Ref) else Ref([a[0]], 0))] + list(a[1:])
         if m == "next":
             return opt(as_iter(ex, a[0]).next(ex))
         if m == "next_back":
